@@ -19,7 +19,11 @@ Definition run_case (engine : bytes) (v : val) : val :=
             VL (finding K_TAG (tag_serve i) (VL []) (VL [])
                 :: cmp_obs (model_obs i) obs
                 ++ match dec_sobs obs with
-                   | None => []      (* a panic or malformed observation: the comparison above reports it *)
+                   | None =>          (* serve itself panicked (or the observation is malformed) *)
+                       match obs with
+                       | VL [VB _] => [clause "C13" "serve-panicked"]
+                       | _ => []
+                       end
                    | Some o => spec_serve_all i o
                    end)
         end
